@@ -7,7 +7,9 @@ def sh(cmd, **kw): return subprocess.run(cmd, shell=True, capture_output=True, t
 wt = "/tmp/wt/benignrun" + os.environ.get("MATRIX_SLOT", "")
 sh(f"git -C /repo worktree remove --force {wt}"); sh(f"git -C /repo worktree add -q --detach {wt} HEAD")
 for r in sys.argv[1:]:
-    d = f"/tmp/seed_out/benign/{r}"
+    d = os.environ.get("BENIGN_SRC", "/tmp/seed_out/benign") + f"/{r}"
+    if not os.path.exists(f"{d}/patch.diff"):
+        d = f"/verif/seeded/benign-{r}"           # re-run of a stored refactoring
     sh(f"git -C {wt} checkout -- .")
     if sh(f"git -C {wt} apply {d}/patch.diff").returncode != 0:
         print(r, "does not apply at HEAD", flush=True); continue
@@ -20,9 +22,10 @@ for r in sys.argv[1:]:
             lines = [l for l in p.stdout.splitlines() if l.startswith("  " + pid)][:2] + p.stderr.splitlines()[-2:]
             print(r, pid, "exit", p.returncode, lines, flush=True)
     os.makedirs(f"/verif/seeded/benign-{r}", exist_ok=True)
-    sh(f"cp {d}/patch.diff /verif/seeded/benign-{r}/patch.diff")
+    if d != f"/verif/seeded/benign-{r}":
+        sh(f"cp {d}/patch.diff /verif/seeded/benign-{r}/patch.diff")
     meta = json.load(open(f"{d}/meta.json")) if os.path.exists(f"{d}/meta.json") else {}
-    json.dump({"kind": "behaviour-preserving refactoring (must NOT raise any alarm)", "summary": meta.get("summary", ""), "suite_with_patch": suite,
+    json.dump({"kind": "behaviour-preserving refactoring (must NOT raise any alarm)", "summary": meta.get("summary", ""), "repo_head": sh("git -C /repo rev-parse --short HEAD").stdout.strip(), "suite_with_patch": suite,
                "check_exit_codes": res, "silent": all(v == 0 for v in res.values())}, open(f"/verif/seeded/benign-{r}/meta.json", "w"), indent=1)
     print(r, "suite:", suite, "silent:", all(v == 0 for v in res.values()), flush=True)
 sh(f"git -C /repo worktree remove --force {wt}")
